@@ -416,7 +416,7 @@ func RunCheck(opts *CheckOpts) int {
 	// functions under contract for this property
 	var keys []string
 	for k, c := range prog.Contracts {
-		if c.Trusted && !(c.Sequential && hasProp(c, prop)) {
+		if c.Trusted && !((c.Sequential || len(c.Exhaustive) > 0 || len(c.Criticals) > 0) && hasProp(c, prop)) {
 			continue
 		}
 		if opts.AllFuncs || hasProp(c, prop) {
@@ -473,6 +473,35 @@ func RunCheck(opts *CheckOpts) int {
 				continue
 			}
 			r.Err = "contract does not bind: function " + ShortKey(k) + " not found"
+			continue
+		}
+		if c.Trusted && !c.Sequential && (len(c.Exhaustive) > 0 || len(c.Criticals) > 0) && fn.Blocks != nil {
+			// structural obligations only: the body is not verified
+			g := NewGen(prog, fn, c)
+			r.Gen = g
+			cfg, cerr := AnalyzeCFG(fn)
+			if cerr != nil {
+				r.Err = "contract does not bind: " + cerr.Error()
+				continue
+			}
+			obs, e := exhaustiveObligations(g, cfg, k, c)
+			if e != "" {
+				r.Err = e
+				continue
+			}
+			for ci, cr := range c.Criticals {
+				co, e2 := criticalObligations(g, fn, k, ci, cr[0], cr[1])
+				if e2 != "" {
+					r.Err = "contract does not bind: " + e2
+					break
+				}
+				obs = append(obs, co...)
+			}
+			if r.Err != "" {
+				continue
+			}
+			r.Obligations = append(r.Obligations, obs...)
+			all = append(all, obs...)
 			continue
 		}
 		if c.Trusted && c.Sequential {
@@ -547,6 +576,12 @@ func RunCheck(opts *CheckOpts) int {
 			continue
 		}
 		r.Obligations = g.Obls
+		if obs, err := exhaustiveObligations(g, g.cfg, k, c); err != "" {
+			r.Err = err
+			continue
+		} else {
+			g.Obls = append(g.Obls, obs...)
+		}
 		for ci, cr := range c.Criticals {
 			obs, err := criticalObligations(g, fn, k, ci, cr[0], cr[1])
 			if err != "" {
@@ -1795,6 +1830,42 @@ func criticalObligations(g *Gen, fn *ssa.Function, key string, ci int, from, to 
 	}
 	if n == 0 {
 		out = append(out, &Obligation{Name: fmt.Sprintf("%s#critical.%d", ShortKey(key), ci), Kind: "critical", Fn: key, Clause: fmt.Sprintf("critical: the mutex is not released between the call of %s and the call of %s", from, to), Reach: True, Goal: True, Gen: g, NDefs: 0})
+	}
+	return out, ""
+}
+
+
+// exhaustiveObligations: structural obligations of `loop N exhaustive` clauses — every
+// edge that leaves the loop must start at the loop header.
+func exhaustiveObligations(g *Gen, cfg *CFG, k string, c *Contract) ([]*Obligation, string) {
+	var out []*Obligation
+	for _, lo := range c.Exhaustive {
+		var L *Loop
+		if cfg != nil && lo >= 0 && lo < len(cfg.LoopSeq) {
+			L = cfg.LoopSeq[lo]
+		}
+		if L == nil {
+			return nil, fmt.Sprintf("contract does not bind: loop %d exhaustive: no such loop", lo)
+		}
+		n := 0
+		for b := range L.Blocks {
+			if b == L.Header {
+				continue
+			}
+			for _, sc := range b.Succs {
+				if !L.Blocks[sc] {
+					pos := ""
+					if len(b.Instrs) > 0 {
+						pos = g.pos(b.Instrs[len(b.Instrs)-1].Pos())
+					}
+					out = append(out, &Obligation{Name: fmt.Sprintf("%s#exhaustive.%d.%d", ShortKey(k), lo, n), Kind: "exhaustive", Fn: k, Clause: fmt.Sprintf("loop %d exhaustive: the loop is left only through its header condition", lo), Pos: pos, Reach: True, Goal: False, Gen: g})
+					n++
+				}
+			}
+		}
+		if n == 0 {
+			out = append(out, &Obligation{Name: fmt.Sprintf("%s#exhaustive.%d", ShortKey(k), lo), Kind: "exhaustive", Fn: k, Clause: fmt.Sprintf("loop %d exhaustive: the loop is left only through its header condition", lo), Reach: True, Goal: True, Gen: g})
+		}
 	}
 	return out, ""
 }
